@@ -3,6 +3,7 @@
 from __future__ import annotations
 
 import os
+import random
 import shutil
 
 PROP = "C08"
@@ -58,6 +59,9 @@ THEOREMS = [
     "C08_restore_links_same_links",
     "C08_restore_links_setter_partial",
     "C08_restore_links_setter_witness",
+    "C08_record_identity_hit",
+    "C08_record_scalar_hit",
+    "C08_record_copy_witness",
 ]
 RULE = (
     "real workflows of term nodes (and generic macros, nested up to 2 deep, built from a level description) in a "
@@ -512,12 +516,13 @@ def _mk_sched(choices):
     return RootScheduler(list(choices), ident=ident)
 
 
-def _with_cp(spec, cp):
-    """the level description with the leaves in `cp` turned into nodes whose output only cloudpickle can serialise"""
+def _with_cp(spec, cp, arr=()):
+    """the level description with the leaves in `cp` turned into nodes whose output only cloudpickle can serialise,
+    those in `arr` into nodes whose output is array-like (`==` between two different objects has no truth value)"""
     out = dict(spec)
     out["nodes"] = [
-        {**nd, "inner": _with_cp(nd["inner"], cp)} if nd["kind"] == "macro"
-        else ({**nd, "kind": "cterm"} if nd["gid"] in cp else nd)
+        {**nd, "inner": _with_cp(nd["inner"], cp, arr)} if nd["kind"] == "macro"
+        else ({**nd, "kind": "cterm"} if nd["gid"] in cp else ({**nd, "kind": "aterm"} if nd["gid"] in arr else nd))
         for nd in spec["nodes"]
     ]
     return out
@@ -530,7 +535,7 @@ def _build(case):
 
     nodes_c08.SPEC_QUEUE.clear()
     wf = Workflow("w", autoload=None)
-    made = nodes_c08.build_level(wf, _with_cp(case["top"], set(case.get("cp", []))))
+    made = nodes_c08.build_level(wf, _with_cp(case["top"], set(case.get("cp", [])), set(case.get("arr", []))))
     if case.get("flow"):
         # a HAND-WIRED flow: no automatic derivation of the execution signals; every node is triggered by the `ran`
         # signal of the one node it takes data from, through its any-of `run` input, the roots are the starting nodes
@@ -977,6 +982,7 @@ def run_impl(case):
         "second_failure": int(b3 is not None), "cloudpickle_only_output": int(bool(case.get("cp"))),
         "several_checkpoints": int(bool(case.get("ckpt_more"))),
         "linked_input_set_directly": int(bool(case.get("preset"))),
+        "array_like_data_on_edges": int(bool(case.get("arr"))),
         "linked_input_differs_from_macro_input": int(bool(preset_live(case))),
         "interrupt": int("kbd" in (case.get("kinds") or {}).values() or "kbd" in (case.get("kinds2") or {}).values()),
         "two_suffixes_seen": int(any(f.endswith(".cpckl") for f in cut["files"] + b["files_after"])),
@@ -1872,6 +1878,10 @@ def gen_case(rng, tier, force_kind=None, nested=None):
     case["choices"] = [0 if lazy and rng.random() < 0.85 else rng.randint(0, 3) for _ in range(4 * n)]
     case["choices2"] = [rng.randint(0, 3) for _ in range(4 * n)]
     case["choices3"] = [rng.randint(0, 3) for _ in range(4 * n)]
+    # the data alphabet: some leaves return array-like data (two different objects have no yes/no `==`), flowing along
+    # the edges like any other term (own random stream: the other dimensions of the case are left as they were)
+    r2 = random.Random(31 * sum(case["choices2"]) + case["N"])
+    case["arr"] = sorted(g for g in leaves if g not in case["cp"] and r2.random() < 0.3) if r2.random() < 0.5 else []
     return case
 
 
@@ -2070,6 +2080,10 @@ def corpus():
     linked = {"top": l_top, "N": 14, "exec": [], "exec2": [], "dirty": [], "mode": "ctl", "choices": [], "choices2": [],
               "kind": "recovery", "fails": [2]}
     yield {**linked, "preset": [[5, 0]]}
+    # array-like data on the edges into completed nodes, two macros down and at the top (C08_record_identity_hit /
+    # C08_record_copy_witness): 5 -> 6 and 3 -> 8 carry it, 0 -> 7, 0 -> 2 as well; a later node fails
+    yield {**linked, "preset": [], "arr": [0, 3, 5]}
+    yield {**linked, "preset": [], "arr": [0, 3, 5, 6, 4], "fails": [1]}
     yield {**linked, "preset": [[8, 0]]}
     yield {**linked, "preset": [[5, 0], [3, 0]], "fails": [1]}  # 3.a sits under a connected argument: overwritten by the run
     yield {**linked, "preset": [[5, 0]], "kind": "checkpoint", "fails": [], "ckpt": 1}
@@ -2133,6 +2147,10 @@ def shrink_candidates(case):
         yield {**case, "cp": []}
     for x in case.get("preset", []):
         yield {**case, "preset": [y for y in case["preset"] if y != x]}
+    if case.get("arr"):
+        yield {**case, "arr": []}
+        for x in case["arr"]:
+            yield {**case, "arr": [y for y in case["arr"] if y != x]}
     if any(v != "exc" for v in (case.get("kinds") or {}).values()):
         yield {**case, "kinds": {k: "exc" for k in case["kinds"]}}
     for g in case.get("exec", []):
